@@ -23,10 +23,26 @@ a list of sizes is `_` or comma separated decimals.
        of one array (spare capacity everywhere), each writing its own file; `mutate`: the caller scribbles over
        its buffers afterwards      -> m=<row>,<row>,…   row i, column j ∈ {s,o,e,p}: filespace i reading file j
 
+  hist <raw|tagged> <mem|disk> <settings> <steps>
+       a history with SEVERAL OPEN HANDLES over one base: `settings` = `h:sec:salt,…` (one encrypted filespace
+       each, real AES-GCM on the Go side, the ideal AEAD here), `steps` = comma separated
+         wf:<fs>:<file>:<len>:<seed>   WriteFile of the content pattern(len,seed)      -> ok | err
+         rf:<fs>:<file>                ReadFile                                          -> <len>/<fnv32> | err
+         or:<fs>:<file>:<h>            Reader (handle number h, fresh)                   -> ok | err
+         rd:<h>:<n>                    one Read with an n-byte buffer                    -> <len>/<fnv32>/<eof>
+         ra:<h>                        read everything that is left                      -> <len>/<fnv32>
+         cr:<h>                        Close of the reader                               -> ok
+         ow:<fs>:<file>:<h>            Writer                                            -> ok | err
+         wr:<h>:<len>:<seed>           one Write                                         -> ok
+         cw:<h>                        Close of the writer (seals and stores)            -> ok | err
+       an operation on a handle whose open failed answers `dead`; `panic` ends the answer list
+       -> h=<answer>,<answer>,…      (`bad-op` when the history is not well formed, see Model/EncHandles.lean)
+
 Everything after ` | ` on a result line is model-only information (branch taken) and is stripped by the check
 before the comparison.
 -/
 import Goat.Model.Encrypt
+import Goat.Model.EncHandles
 open Goat Goat.Enc
 
 def parseBytesList (s : String) : Option (List Bytes) :=
@@ -204,6 +220,62 @@ def doShared (f : Array String) : Option String := do
       | .panic => 'p')
   pure s!"m={",".intercalate rows}"
 
+/-! ### `hist`: several open handles -/
+
+def parseSetting (s : String) : Option Settings :=
+  match s.splitOn ":" with
+  | [h, sec, salt] => do
+    let h ← parseBool h
+    let sec ← Hex.decode sec
+    let salt ← Hex.decode salt
+    pure ⟨sec, salt, h⟩
+  | _ => none
+
+def parseHStep (s : String) : Option HStep :=
+  match s.splitOn ":" with
+  | ["wf", fs, file, len, seed] => do pure (.writeFile (← fs.toNat?) (← file.toNat?) (pattern (← len.toNat?) (← seed.toNat?)))
+  | ["rf", fs, file] => do pure (.readFile (← fs.toNat?) (← file.toNat?))
+  | ["or", fs, file, h] => do pure (.openReader (← fs.toNat?) (← file.toNat?) (← h.toNat?))
+  | ["rd", h, n] => do pure (.read (← h.toNat?) (← n.toNat?))
+  | ["ra", h] => do pure (.readAll (← h.toNat?))
+  | ["cr", h] => do pure (.closeReader (← h.toNat?))
+  | ["ow", fs, file, h] => do pure (.openWriter (← fs.toNat?) (← file.toNat?) (← h.toNat?))
+  | ["wr", h, len, seed] => do pure (.write (← h.toNat?) (pattern (← len.toNat?) (← seed.toNat?)))
+  | ["cw", h] => do pure (.closeWriter (← h.toNat?))
+  | _ => none
+
+def hex8 (n : UInt32) : String :=
+  String.ofList ((List.range 8).map fun i => Hex.digit ((n.toNat / 16 ^ (7 - i)) % 16))
+
+def digest (b : Bytes) : String := s!"{b.length}/{hex8 (fnv32 b)}"
+
+def showHOut : HOut → String
+  | .ok => "ok"
+  | .err => "err"
+  | .data b none => digest b
+  | .data b (some e) => s!"{digest b}/{if e then 1 else 0}"
+  | .dead => "dead"
+  | .panic => "panic"
+
+/-- answers up to and including the first panic -/
+def cutAtPanic : List HOut → List HOut
+  | [] => []
+  | .panic :: _ => [.panic]
+  | o :: rest => o :: cutAtPanic rest
+
+def doHist (f : Array String) : Option String := do
+  let k ← parseKind f[1]!
+  let _ ← if f[2]! = "mem" || f[2]! = "disk" then some () else none
+  let sets ← (f[3]!.splitOn ",").mapM parseSetting
+  let steps ← (f[4]!.splitOn ",").mapM parseHStep
+  let c := mkCipher idealAEAD id k
+  let kms := sets.map (keyMaterial hostIDActual)
+  let ent : Bytes := List.replicate 12 0
+  let (_, outs) ← hrun c kms ent HState.empty steps
+  let outs := cutAtPanic outs
+  let nOpen := (steps.filter fun st => match st with | .openReader .. => true | .openWriter .. => true | _ => false).length
+  pure s!"h={",".intercalate (outs.map showHOut)} | handles:{min nOpen 6}"
+
 /-- a base that only records the call it receives -/
 def logBase : BaseOps Unit (List String) Unit where
   ns := fun _ op log =>
@@ -259,6 +331,7 @@ def stepLine (line : String) : String :=
     | some "aes" => if f.size = 8 then doAes f else none
     | some "xkey" => if f.size = 12 then doXkey f else none
     | some "shared" => if f.size = 9 then doShared f else none
+    | some "hist" => if f.size = 5 then doHist f else none
     | some "ns" => if f.size ≥ 3 then doNs f else none
     | _ => none
   r.getD "bad-op"
